@@ -120,6 +120,8 @@ def _apply(p, obj, is_ra):
             uf = getattr(np, f)
             return uf.accumulate(obj, axis=ax) if is_ra else uf.accumulate(obj)
         if f == "sort":
+            if is_ra and p["vseed"] % 5 == 2:
+                return obj.sort()           # the default axis of sort is the last one
             return obj.sort(axis=ax) if is_ra else np.sort(obj)
         if f == "unique":
             return np.unique(obj, axis=ax) if is_ra else np.unique(obj, equal_nan=False)
@@ -127,6 +129,9 @@ def _apply(p, obj, is_ra):
             return np.unique(obj, axis=ax, return_counts=True) if is_ra else np.unique(obj, return_counts=True, equal_nan=False)
         if f == "diff":
             n = p["n"] if (not is_ra or p.get("nform", "int") == "int") else np.dtype(p["nform"]).type(p["n"])
+            if is_ra and p["vseed"] % 4 == 1:
+                # numpy's own defaults and positional forms: np.diff(a, n) is along the last axis
+                return [lambda: np.diff(obj, n), lambda: np.diff(obj, n=n), lambda: np.diff(obj, n, -1), lambda: np.diff(obj) if p["n"] == 1 else np.diff(obj, n)][(p["vseed"] // 4) % 4]()
             return np.diff(obj, n=n, axis=ax) if is_ra else np.diff(obj, n=p["n"])
 
 
